@@ -161,5 +161,6 @@ void sim_wait(int (*pred)(simproc *), const char *what);   /* block the calling 
 void sim_run_all(void);              /* run until every process finished or blocked forever */
 extern int (*sim_pick)(int n, int *idx, const char **what);   /* choose among n runnable procs */
 extern const char *sim_pending_call[SIM_MAXPROC];
+extern const char *sim_pending_arg[SIM_MAXPROC];   /* path argument of the pending open/link/unlink/stat/rename, else 0 */
 
 #endif
